@@ -475,10 +475,30 @@ def host_main(case_path, out_path):
         threading.Thread(target=scan, daemon=True, name='scan').start()
         box = {}
 
+        def hold_after_start(frame, event, arg):
+            # scheduling device (no source edit): inside RemoteWorker._start, at the first line executed after the frontend thread
+            # has been started, the constructing thread is held until that thread has finished (its handshake has failed)
+            if frame.f_code.co_name != '_start' or not frame.f_code.co_filename.endswith('remote.py'):
+                return None
+
+            def local(fr, ev, a):
+                if ev == 'line' and not box.get('held') and any(t.name.endswith('(remote front)') for t in threading.enumerate()):
+                    box['held'] = True
+                    t1 = time.monotonic()
+                    while any(t.name.endswith('(remote front)') and t.is_alive() for t in threading.enumerate()) and time.monotonic() - t1 < 3:
+                        time.sleep(0.002)
+                return local
+            return local
+
         def ctor():
             t0 = time.monotonic()
             try:
-                box['w'] = make()
+                if case.get('variant') == 'front_first':
+                    sys.settrace(hold_after_start)
+                try:
+                    box['w'] = make()
+                finally:
+                    sys.settrace(None)
             except BaseException as e:  # noqa
                 box['exc'] = type(e).__name__
                 box['err'] = e          # kept, as a caller that logs or collects failures would (nothing is left to the cycle collector)
@@ -622,6 +642,9 @@ def _cases_from_paths(paths, tier):
                 add(kind=kind, pers=pers, step=st, how=how, server='real')
         else:
             add(kind=kind, pers='F', step=st, how=how, server='scripted')
+            if (st, how) in (('hdr', 'rst'), ('addr0', 'fin'), ('conn', 'na'), ('infoM', 'fin')):
+                # the same fault with the frontend thread scheduled first: the constructing thread is held right after Thread.start()
+                add(kind=kind, pers='F', step=st, how=how, server='scripted', variant='front_first')
             if tier == 'thorough' or st in ('hdr', 'infoM'):
                 add(kind=kind, pers='T', step=st, how=how, server='scripted')
             if tier == 'thorough' and st in ('addrM', 'infoM'):
@@ -707,6 +730,10 @@ def run(prop, tier, replay=None):
     if r.error:
         raise MachineryError('ClientStart.tla violates its own properties: %s\n%s' % (r.error, '\n'.join(r.trace[:60])))
     wit = {}
+    rw = tlc.run('ClientStartMC', cfg_text=_mc_cfg(LateErrReset='TRUE').replace('INVARIANT TypeOK\n', ''), name='whatif_lateerrreset', must_complete=False, workers=2)
+    if rw.error != 'invariant:Inv_Usable':
+        raise MachineryError('what-if LateErrReset (error slot cleared after the frontend thread was started) is not rejected by Usable: %r' % rw.error)
+    ev.add_tlc('what-if: _start clears the error slot after starting the frontend thread (must be rejected)', rw, role='vacuity')
     for nm_, kw_, why in (('whatif_gofirst', dict(GoFirst='TRUE'), 'the go-ahead precedes the runtime-info frame'),
                           ('pre_basereport', dict(Fix='FixNoBase'), 'the tree as it is: a BaseException during the backend start-up is not reported')):
         rw = tlc.run('ClientStartMC', cfg_text=_mc_cfg(**kw_), name=nm_, must_complete=False, workers=2)
